@@ -447,7 +447,7 @@ that can be written on one line was on one line; a single in-line field option w
 grammar model `Grammar.parseFile` (validated against protocompile on every `print.file` op) reads
 the printed text this way is checked on concrete files below and by the stream, not yet proved for
 all files. -/
-theorem C05_reprint_fixed (gen : String) (d d' : FileD) (hu : d.unloc) (hr : relaidFile d.arranged d') :
+theorem C05_reprint_fixed (gen : String) (d d' : FileD) (hu : d.quiet) (hr : relaidFile d.arranged d') :
     printFile gen d' = printFile gen d :=
   printFile_reprint gen d d' hu hr
 
@@ -499,22 +499,22 @@ def exRead : FileD :=
          .block "enum" 2 (lo 25 28) 0 "E" [] [ .field ⟨.value, lo 26 26, 0, "", "", "E_UNSPECIFIED", 0, none, []⟩,
                                             .field ⟨.value, lo 27 27, 0, "", "", "E_X", 1, none, []⟩ ] ] ]⟩
 
-example : exFile.unloc := by
-  simp [FileD.unloc, exFile, Loc.isNone, Loc.none, unlocList, Item.unloc, FieldD.unloc, exOpt]
+example : exFile.quiet := by
+  simp [FileD.quiet, exFile, Loc.noComments, Loc.none, quietList, Item.quiet, FieldD.quiet, exOpt]
 
 example : relaidFile exArr exRead := by
-  simp [relaidFile, exArr, exRead, relaidKids, relaid, fieldOk, optsOk, optOk, Loc.noComments, lo, exOpt, exOptL,
+  simp [relaidFile, exArr, exRead, relaidKids, relaid, fieldOk, optsOk, optOk, Loc.noComments, lo, exOpt, exOptL, gapCond,
     Item.loc, Item.typeOrder, Item.gapEnder, eraseKeys, eraseKids, SOpt.single, SOpt.inl, sortImports,
     Order.locLess_irrefl, Order.isort, Order.insertBy, Loc.none]
 
 /-- the text of the example and of its reading are the same -/
 example : printFile "gen" exRead = printFile "gen" exFile :=
   C05_reprint_fixed "gen" exFile exRead
-    (by simp [FileD.unloc, exFile, Loc.isNone, Loc.none, unlocList, Item.unloc, FieldD.unloc, exOpt])
+    (by simp [FileD.quiet, exFile, Loc.noComments, Loc.none, quietList, Item.quiet, FieldD.quiet, exOpt])
     (by
       have h : exFile.arranged = exArr := by rfl
       rw [h]
-      simp [relaidFile, exArr, exRead, relaidKids, relaid, fieldOk, optsOk, optOk, Loc.noComments, lo, exOpt, exOptL,
+      simp [relaidFile, exArr, exRead, relaidKids, relaid, fieldOk, optsOk, optOk, Loc.noComments, lo, exOpt, exOptL, gapCond,
         Item.loc, Item.typeOrder, Item.gapEnder, eraseKeys, eraseKids, SOpt.single, SOpt.inl, sortImports,
         Order.locLess_irrefl, Order.isort, Order.insertBy, Loc.none])
 
@@ -530,8 +530,9 @@ theorem below discharges the "grammar assumed" hypothesis for the descriptor sha
 package, imports (plain / public / weak), services with methods (unary and streaming), messages with
 nested messages and enums, fields (no label / `repeated` / `optional`; scalar, relative,
 package-qualified and fully-qualified type names; any number, negative ones included), enum values —
-without options, comments, extensions, oneofs, map types and custom JSON names (those are covered by
-the stream, not yet by the theorem). -/
+real oneofs, map fields — with or without source locations (lines; the printer orders the children of a
+block by them and leaves a gap where the source left a line free), without options, comments, extensions and
+custom JSON names (those are covered by the stream, not yet by the theorem). -/
 
 open Layout Grammar Reparse in
 /-- **parse (print d) = d′ with d′ ≍ d, and print d′ = print d.** For every `d` whose printed
@@ -574,6 +575,28 @@ theorem kwOk_of (s : String) (h : decide (s ≠ "repeated" ∧ s ≠ "optional" 
 
 theorem simpleEx_ok : SimpleFile "gen" simpleEx :=
   Cover.simpleFileB_sound "gen" simpleEx (by decide)
+
+/-- a file *with source locations* and without comments (what `j5convert` produces for a schema without
+descriptions): the enum was declared on lines 1–3, the message on 5–12, field `b` (line 9) two lines after
+field `a` (line 6): the printer keeps a gap there; the fields are listed out of source order -/
+def fldAt (s e : Nat) (ix : Nat) (label ty name : String) (num : Int) : Item :=
+  .field ⟨.field, ⟨s, e, [], "", ""⟩, ix, label, ty, name, num, some (String.ofList (defaultJSONName name.toList)), []⟩
+
+def locatedEx : FileD :=
+  ⟨Loc.none, "p.v1", [], [], [],
+   [ .block "message" 1 ⟨5, 12, [], "", ""⟩ 0 "M" []
+       [ fldAt 9 9 1 "" "int32" "b" 2, fldAt 6 6 0 "" "string" "a" 1, fldAt 10 10 2 "repeated " "M" "c" 3 ],
+     .block "enum" 2 ⟨1, 3, [], "", ""⟩ 0 "E" [] [ .field ⟨.value, ⟨2, 2, [], "", ""⟩, 0, "", "", "E_UNSPECIFIED", 0, none, []⟩ ] ]⟩
+
+theorem locatedEx_ok : SimpleFile "gen" locatedEx.arranged :=
+  Cover.simpleFileB_sound "gen" locatedEx.arranged (by decide)
+
+/-- the arrangement sorts by line: the enum of line 1 before the message of line 5 (the printed text, by `#eval`:
+`enum E {` … `}` · gap · `message M {` · `string a = 1;` · gap · `int32 b = 2;` · `repeated M c = 3;` · `}`) -/
+example : locatedEx.arranged.items.map (·.loc.startLine) = [1, 5] := by decide
+
+/-- `C05_reparse` applies to the located file -/
+example := C05_reparse "gen" locatedEx locatedEx_ok
 
 /-- the example is its own arrangement (the service before the message; fields before the nested message before the enum) -/
 example : simpleEx.arranged = simpleEx := by rfl
